@@ -214,6 +214,10 @@ class Expander:
             if a[0] == "sym":
                 if a[1] not in self.scalar_names and not a[1].startswith("rng."):
                     mapping[a] = R.sym(f"{a[1]}[{t}]")
+                elif a[1] in self.scalar_names and a[1].endswith(":]") and t.lstrip("-").isdigit():
+                    # a per-dimension vector (`theta[1:]`) is erased of broadcast tags, but ONE fixed component of it (`L[0]`) is not
+                    # the generic component: it is an atom of its own
+                    mapping[a] = R.sym(f"{a[1]}[{t}]")
             elif a[0] in ("exp", "log", "poly"):
                 inner = self.index_R(anf.REG.get(a[1])[0], t)
                 mapping[a] = {"exp": anf.exp_, "log": anf.log_, "poly": lambda z: z}[a[0]](inner)
